@@ -8,6 +8,8 @@
 //	         every alteration of a protected class must end in a parse error or >= 1 validate error
 //	edit     a sound grammar image, a few insert / remove operations through the visitors, Save;
 //	         the saved image, parsed again, must validate without error
+//	seq      a grammar image and a utk command line with several saves of the one in-memory tree
+//	         (seq.go); every saved image, parsed again, must validate without error
 //	file     a file of the repository (the maintainers' own volume), with alterations of its headers
 //	hex      raw bytes (corpus / hand-made cases), optional alterations "offset:value:class"
 //
@@ -451,6 +453,9 @@ func (prop) run(c core.Case) core.Outcome {
 		}
 		return out
 
+	case "seq":
+		return runSeq(c)
+
 	case "edit":
 		img := hu.ParseRecipe(c.Args["recipe"])
 		in := img.Ser()
@@ -799,9 +804,10 @@ func (prop) Gen(r *rand.Rand, tier string) []core.Case {
 	cs = append(cs, core.Case{Kind: "file", Op: "file", Args: map[string]string{
 		"path": "integration/roms/ovmfSECFV.fv", "valid": "1", "muts": "headers"}})
 	// the hand-made cases (crafted.go) are stored in corpus/C09 and run first on every check
-	nSound, nRaw, nExh, nSamp, nEdit := 220, 60, 60, 50, 120
+	nSound, nRaw, nExh, nSamp, nEdit, nSeq := 220, 60, 60, 50, 120, 90
 	if tier == "thorough" {
-		nSound, nRaw, nExh, nSamp, nEdit = 4000, 800, 700, 900, 1500
+		nSound, nRaw, nExh, nSamp, nEdit, nSeq = 4000, 800, 700, 900, 1500, 1500
+		cs = append(cs, bigSeq())
 	}
 	for i := 0; i < nSound; i++ {
 		cs = append(cs, imgCase("sound", drawSound(r, false), "1"))
@@ -829,6 +835,11 @@ func (prop) Gen(r *rand.Rand, tier string) []core.Case {
 	}
 	for i := 0; i < nEdit; i++ {
 		if c, ok := editCase(r); ok {
+			cs = append(cs, c)
+		}
+	}
+	for i := 0; i < nSeq; i++ { // several saves of one in-memory tree (seq.go)
+		if c, ok := seqGen(r); ok {
 			cs = append(cs, c)
 		}
 	}
